@@ -243,6 +243,7 @@ class Engine(object):
         self.const_info = {}
         from . import prims
         self.prims = prims
+        prims.CURRENT_ENGINE = self
         self.unmodelled = {}           # external callee name -> count (diagnostics)
         self.stat_paths = 0
         self.stat_steps = 0
